@@ -93,7 +93,7 @@ func checkC33(c *Ctx) (string, []string) {
 				hostArgs = append(hostArgs, exprStr(a, shapeOpts))
 			}
 		}
-		okHost := len(hostArgs) == 6 && hostArgs[0] == prog && hostArgs[2] == "cell("+M+".Memory)" && strings.HasPrefix(hostArgs[3], "i64(") && hostArgs[5] == "nil"
+		okHost := len(hostArgs) == 6 && c33Loose(hostArgs[0]) == c33Loose(prog) && c33Loose(hostArgs[2]) == c33Loose(M+".Memory") && strings.HasPrefix(hostArgs[3], "i64(") && hostArgs[5] == "nil"
 		c.Check(okHost, "C33.invoke", "PVM.invoke · inner machine", f.Pos(), "NewHost(deblob(stored program), decoded registers, stored memory, decoded gas, no host calls)", "inner machine is built from ["+abbr(strings.Join(hostArgs, " , "))+"]")
 		leak := ""
 		for _, s := range hostArgs {
@@ -109,11 +109,36 @@ func checkC33(c *Ctx) (string, []string) {
 				decOK++
 			}
 		}
-		c.Check(decOK == 2, "C33.invoke", "PVM.invoke · arguments", f.Pos(), "gas and registers decoded from the 112-byte block at register 8", "gas/registers are not decoded from the 112-byte argument block")
+		decMsg := "gas and registers decoded from the 112-byte block at register 8"
+		if decOK != 2 {
+			// or by a helper: (g, w) = d(Read(outer memory, register 8, 112)) with d decided as the inverse of E8(g) ++ E8(w_0..12)
+			for _, k := range callsIn(f, c.Obj("PVM", "NewHost")) {
+				a := k.Common().Args
+				ge, isG := stripConv(a[3]).(*ssa.Extract)
+				we, isW := stripConv(a[1]).(*ssa.Extract)
+				if !isG || !isW || ge.Tuple != we.Tuple {
+					continue
+				}
+				dc, isCall := ge.Tuple.(*ssa.Call)
+				if !isCall || dc.Call.StaticCallee() == nil || len(dc.Call.Args) != 1 {
+					continue
+				}
+				if src := exprStr(dc.Call.Args[0], shapeOpts); !strings.Contains(src, "Read(cell(p0).VM.Memory, "+R(8)+", 112)") {
+					continue
+				}
+				if ok, why := bfBlockCodec(dc.Call.StaticCallee(), false); ok {
+					decOK = 2
+					decMsg = "gas and registers are results of " + dc.Call.StaticCallee().Name() + "(112-byte block at register 8), decided as the inverse of E8(g) ++ E8(w0..w12) (bit provenance)"
+				} else {
+					decMsg = why
+				}
+			}
+		}
+		c.Check(decOK == 2, "C33.invoke", "PVM.invoke · arguments", f.Pos(), decMsg, "gas/registers are not decoded from the 112-byte argument block ("+decMsg+")")
 		// resume pc uses the inner bitmask
 		for _, k := range callsIn(f, c.Obj("PVM", "skip")) {
 			s := exprStr(k.Common().Args[1], shapeOpts)
-			c.Check(s == prog+".Bitmasks", "C33.invoke", "PVM.invoke · resume skip", k.Pos(), "skip distance from the inner program's bitmask", "skip distance after an inner host call is taken from "+abbr(s))
+			c.Check(c33Loose(s) == c33Loose(prog+".Bitmasks"), "C33.invoke", "PVM.invoke · resume skip", k.Pos(), "skip distance from the inner program's bitmask", "skip distance after an inner host call is taken from "+abbr(s))
 		}
 		// write-back block
 		var puts []string
@@ -140,7 +165,33 @@ func checkC33(c *Ctx) (string, []string) {
 				hasLoop = true
 			}
 		}
-		c.Check(strings.Join(puts, ",") == "gas,regs" && hasLoop, "C33.invoke", "PVM.invoke · write-back", f.Pos(), "E8(gas') then 13 × E8(register) written into the 112-byte block", "result block is filled by ["+strings.Join(puts, ",")+"]")
+		wbOK, wbMsg := strings.Join(puts, ",") == "gas,regs" && hasLoop, "E8(gas') then 13 × E8(register) written into the 112-byte block"
+		if !wbOK && len(puts) == 0 {
+			// or by a helper: Write(outer memory, register 8, e(gas', registers')) with e decided as E8(g) ++ E8(w_0..12)
+			for _, k := range callsIn(f, e.memWrite) {
+				a := k.Common().Args
+				hc, isCall := stripConv(a[len(a)-1]).(*ssa.Call)
+				if !isCall || hc.Call.StaticCallee() == nil || len(hc.Call.Args) != 2 {
+					continue
+				}
+				var srcs []string
+				for _, x := range hc.Call.Args {
+					srcs = append(srcs, c33Loose(exprStr(x, shapeOpts)))
+				}
+				sort.Strings(srcs)
+				fromInner := strings.HasPrefix(srcs[0], "PVM.NewHost(") && strings.HasSuffix(srcs[0], ".Interpreter.Registers") && strings.HasPrefix(srcs[1], "u64(PVM.NewHost(") && strings.HasSuffix(srcs[1], ".Interpreter.Gas)")
+				if !fromInner {
+					wbMsg = "the block is built from " + strings.Join(srcs, " and ")
+					continue
+				}
+				if ok, why := bfBlockCodec(hc.Call.StaticCallee(), true); ok {
+					wbOK, wbMsg = true, hc.Call.StaticCallee().Name()+"(inner gas, inner registers) written at register 8, decided as E8(g') ++ E8(w'0..w'12) (bit provenance)"
+				} else {
+					wbMsg = why
+				}
+			}
+		}
+		c.Check(wbOK, "C33.invoke", "PVM.invoke · write-back", f.Pos(), wbMsg, "result block is filled by ["+strings.Join(puts, ",")+"] "+wbMsg)
 		// record update
 		var mu *ssa.MapUpdate
 		allInstrs(f, func(in ssa.Instruction) {
@@ -296,6 +347,23 @@ func checkC33(c *Ctx) (string, []string) {
 	e.ruleMemoryGuards("C33.memory-guards", "C33.memory-guards", fs)
 	return "Inner-machine host calls decided on SSA: programs only come from DeBlobProgramCode; machine stores the validated bytes with an allocated page table under the lowest unused identifier; invoke runs the stored deblobbed program in isolation from the outer machine, writes gas and registers back, stores memory and pc on every exit kind under the same identifier and maps exit kinds to codes; pages applies each mode to exactly the requested pages; expunge; memory guards of peek/poke. Does not decide the inner machine's execution results.",
 		[]string{"canonical expression rendering", "GP B.8 tables for machine/peek/poke/pages/invoke/expunge"}
+}
+
+// c33Loose: renderings compared up to what does not change the value: the local cell a value is copied into,
+// address-of, and the value component of a two-result map lookup.
+func c33Loose(s string) string {
+	s = looseForm(s)
+	for {
+		i := strings.Index(s, "cell(")
+		if i < 0 {
+			return s
+		}
+		j := matchParen(s, i+len("cell"))
+		if j < 0 {
+			return s
+		}
+		s = s[:i] + s[i+len("cell("):j] + s[j+1:]
+	}
 }
 
 // isLoopFrom: v is a counting loop variable starting at the constant k.
